@@ -96,6 +96,7 @@ class ArgumentGenerator:
                 final_type,
                 is_required,
                 used_custom_scalar,
+                arg_type=arg_value.type,
             )
 
         method_arguments = self._assemble_method_arguments(
@@ -128,9 +129,13 @@ class ArgumentGenerator:
         final_type: Union[GraphQLObjectType, GraphQLInterfaceType, GraphQLUnionType],
         is_required: bool,
         used_custom_scalar: Optional[str],
+        arg_type: Any = None,
     ) -> None:
         """Accumulates return arguments."""
-        constant_value = f"{final_type.name}!" if is_required else final_type.name
+        if arg_type is not None:
+            constant_value = str(arg_type)
+        else:
+            constant_value = f"{final_type.name}!" if is_required else final_type.name
         return_arg_dict_value = self._generate_return_arg_value(
             name, used_custom_scalar
         )
